@@ -142,11 +142,14 @@ def invariant_basis(rows):
     return basis
 
 
-def symbolic_invariant(ctx, basis, nrows, prefix="p"):
-    """rows of tensors t[row][key] = sum_k p_{k,row} * basis_k[key] with free parameters p."""
+def symbolic_invariant(ctx, basis, nrows, prefix="p", zero_at=None):
+    """rows of tensors t[row][key] = sum_k p_{k,row} * basis_k[key] with free parameters p
+    (zero_at = (k, row): that parameter is the concrete 0, i.e. some components vanish at one volume only)."""
     rows = []
     for r in range(nrows):
         ps = [ctx.var("%s%d_%d" % (prefix, k, r)) for k in range(len(basis))]
+        if zero_at is not None and zero_at[1] == r:
+            ps[zero_at[0]] = Sym({})
         t = {}
         for key in KEYS:
             acc = Sym({})
@@ -195,7 +198,9 @@ def run_fill(F, df, system, explorer=None, **kw):
 
 
 def no_drop_cut(cond):
-    """Explorer.prefer: for the drop test |col| <= drop_atol of a not-identically-zero symbolic column explore only
-    the 'not dropped' side (recorded as a cut: tensors with a non-vanishing component within drop_atol of zero at
-    every volume are outside that obligation)."""
-    return False
+    """Explorer.prefer: for the drop test |col| <= drop_atol (an allclose condition tree) of a not-identically-zero
+    symbolic column explore only the 'not close' side (recorded as a cut: tensors whose non-vanishing symbolic entries lie
+    within drop_atol of zero are outside that obligation).  Any other comparison forks normally."""
+    if cond[0] in ("and", "or"):
+        return False
+    return None
